@@ -81,6 +81,12 @@ impl Backend {
     }
 
     async fn save_file_dictionary(&self, url: &Url, dict: impl Dictionary) -> Result<()> {
+        // Unsaved documents have no file dictionary (see `load_file_dictionary`): writing one
+        // would replace the dictionary of whatever file shares the URL's path.
+        if url.scheme() == "untitled" {
+            return Ok(());
+        }
+
         save_dict(
             self.get_file_dict_path(url)
                 .await
